@@ -93,6 +93,8 @@ def task_reuse(L1, L2):
         try:
             r1, f1, r2, f2 = drv_reuse(a, b)
         except Exception as ex:  # noqa
+            from pysym.harness import guard_repo_exception
+            guard_repo_exception(ex)
             return {"input": [a, b], "observed": f"raised {type(ex).__name__}: {ex}", "expected": "no exception"}
         if r1 == f1 and r2 == f2:
             return None
@@ -122,6 +124,8 @@ def replay(name):
     try:
         got = native_parts(name)
     except Exception as e:  # noqa
+        from pysym.harness import guard_repo_exception
+        guard_repo_exception(e)
         return {"input": name, "observed": f"raised {type(e).__name__}: {e}", "expected": list(exp)}
     if exp[0] == "unspecified":
         return None
@@ -140,6 +144,8 @@ def replay_mw(name):
     try:
         out = N.SplitNameParts(allow_inplace_modification=True).transform(Library([entry]))
     except Exception as e:  # noqa
+        from pysym.harness import guard_repo_exception
+        guard_repo_exception(e)
         return {"input": name, "observed": f"middleware raised {type(e).__name__}: {e}", "expected": "error block or parts"}
     b = out.blocks
     if exp[0] == "invalid":
@@ -238,6 +244,8 @@ def task_recall(L, sigma, prefix=""):
         try:
             r = drv_recall(t)
         except Exception as e:  # noqa
+            from pysym.harness import guard_repo_exception
+            guard_repo_exception(e)
             return {"input": t, "observed": f"raised {type(e).__name__}: {e}", "expected": "parts"}
         if r is None or [list(x) for x in r[0]] == [list(x) for x in r[1]]:
             return None
